@@ -51,15 +51,20 @@ meta["confirmed"] = ok
 print(f"[{sid}] demo clean={rc_clean} mutated={rc_mut} tests='{tests.strip()}' confirmed={ok}")
 results = {}
 if ok:
-    rc_apply, o = sh(f"git -C /repo apply {patch}")
-    if rc_apply:
-        print("patch does not apply to /repo:", o)
-        meta["applies_to_repo"] = False
-    else:
-        try:
+    # the change is applied to a scratch copy of /repo's HEAD (outside /repo and /verif, removed afterwards); the checks are
+    # pointed at it with SYMX_REPO_SRC, so /repo itself is never modified and other runs are not disturbed
+    import tempfile
+    scratch = tempfile.mkdtemp(prefix="symx_seed_", dir="/tmp")
+    try:
+        run(f"git -C /repo archive HEAD | tar -x -C {scratch}")
+        rc_apply, o = sh(f"git apply {patch}", cwd=scratch)
+        if rc_apply:
+            print("patch does not apply to /repo HEAD:", o)
+            meta["applies_to_repo"] = False
+        else:
             for p in props:
                 t0 = time.time()
-                rc, o = sh(f"SYMX_NO_EVIDENCE=1 /verif/check {p} --tier quick")
+                rc, o = sh(f"SYMX_NO_EVIDENCE=1 SYMX_REPO_SRC={scratch}/src /verif/check {p} --tier quick")
                 viol = [l for l in o.splitlines() if l.startswith("VIOLATION")]
                 first = [l.strip() for l in o.splitlines() if l.strip().startswith("config=")][:2]
                 results[p] = dict(exit=rc, violations=len(viol), first=[f[:300] for f in first], wall_s=round(time.time() - t0, 1),
@@ -67,8 +72,8 @@ if ok:
                 print(f"   {p}: exit={rc} violations={len(viol)} ({results[p]['wall_s']}s)")
                 for f in first[:1]:
                     print("      ", f[:260])
-        finally:
-            run("git -C /repo checkout -- .")
+    finally:
+        shutil.rmtree(scratch, ignore_errors=True)
 meta["checks"] = results
 meta["detected_by"] = [p for p, r in results.items() if r["exit"] == 1]
 d = os.path.join("/verif/seeded", sid)
@@ -79,5 +84,5 @@ notes = os.path.join(out, "notes.md")
 if os.path.exists(notes):
     shutil.copy(notes, os.path.join(d, "notes.md"))
 meta["what_it_needs"] = "see notes.md"
-meta["how_run"] = "tools/seed_eval.py: demo on clean and changed worktree, pytest with the change, then git -C /repo apply; ./check <id> --tier quick; git -C /repo checkout -- ."
+meta["how_run"] = "tools/seed_eval.py: demo on clean and changed worktree, pytest with the change, then the patch applied to a scratch copy of /repo HEAD and ./check <id> --tier quick run against it (SYMX_REPO_SRC); equivalent to git -C /repo apply / checkout, without touching /repo"
 json.dump(meta, open(os.path.join(d, "meta.json"), "w"), indent=1)
